@@ -366,7 +366,7 @@ expr_inspect(const struct expr *ex, const struct match *mh,
 	if ((ex->ex_flags & EXPR_FLAG_INSPECT) == 0)
 		return;
 
-	pindent = strlen(mh->mh_key) + 2;
+	pindent = strnwidth(mh->mh_key, strlen(mh->mh_key)) + 2;
 
 	for (i = 0; i < mh->mh_nmatches; i++) {
 		size_t beg, end, plen;
@@ -903,8 +903,11 @@ expr_inspect_prefix(const struct expr *ex, const struct environment *env)
 		path += len;
 	}
 	n = fprintf(stdout, "%s:%u: ", path, ex->ex_lno);
-	if (n > 0)
-		nwrite += (size_t)n;
+	if (n > 0) {
+		/* The path is accounted for in columns as opposed of bytes. */
+		len = strlen(path);
+		nwrite += (size_t)n - len + strnwidth(path, len);
+	}
 	return nwrite;
 }
 
